@@ -67,6 +67,19 @@ TABLE = [
     (("C10",), "jxl_bitstream::container::parse::ParseEvents::<'inner, 'buf>::emit_single", "bytes", 'b"jxl"', "seed-C10i",
      "inside a brob box every inner type that starts with `jxl` is reserved, known to this decoder or not: the test compares the "
      "three-byte prefix (a seeded change replaced it by the list of the four known jxl? types)"),
+    (("C01",), "jxl_frame::data::spline::Splines::estimate_area", "calls", "core::cmp::Ord::max", "D54",
+     "a spline whose colour coefficients are all zero still costs work proportional to its length: the colour factor of the estimated "
+     "area is at least 1 (without it a 271-byte file renders for minutes)"),
+    (("C01",), "jxl_frame::data::spline::Splines::estimate_area", "calls", "saturating_mul #3", "D55",
+     "the estimated area is computed from bitstream values in u64: products saturate instead of overflowing (panic in checked builds, "
+     "a wrapped value below the limit otherwise)"),
+    (("C01",), "jxl_frame::data::spline::validate_spline_pos", "reject", "ret:abs > 8388607", "D56",
+     "spline coordinates are strictly inside (-2^23, 2^23): beyond 2^24 the renderer's f32 unit steps stop advancing and the sampling "
+     "loop never ends"),
+    (("C01",), "<jxl_frame::data::spline::Splines as jxl_oxide_common::Bundle<", "calls", "validate_spline_pos #2", "D56",
+     "every start point of a spline is range-checked"),
+    (("C01",), "<jxl_frame::data::spline::QuantSpline as jxl_oxide_common::Bundle<", "calls", "validate_spline_pos", "D56",
+     "every accumulated control point of a spline is range-checked"),
     (("C06",), "jxl_render::util::image_region_to_frame", "reads", "frame_type", "seed-C06h",
      "a ReferenceOnly frame is a patch / blending source whatever its save_before_ct bit says (the bit is only defaulted to true when "
      "absent), and reset_cache keeps its render handle across region changes: it has to be rendered in full"),
